@@ -8,12 +8,19 @@
 * ``build`` makes a real House/Store/Logger/Log set, ``run_spec`` drives
   ``logger.runner.send(control)`` tick by tick under virtual store time;
 * ``parse_file`` / ``log_file_paths`` read what the logger produced;
-* ``python -m vf.logx child JOB.json`` is the crash child used by C23: it
-  runs a spec, reports through its stdout pipe (unbuffered ``os.write``) every
-  record written, every completed ``Log.flush`` and every ``Log.cycle``
-  begin/end, and kills itself with ``os._exit(137)`` at the requested crash
-  point (a tick boundary, or the n-th execution of a source line of the
-  anchored functions, detected by a ``sys.monitoring`` LINE callback).
+* the crash child used by C23 runs a spec, reports through its stdout pipe
+  (unbuffered ``os.write``) every record written, every completed
+  ``Log.flush`` and every ``Log.cycle`` begin/end, and kills itself with
+  ``os._exit(137)`` at the requested crash point (a tick boundary, or the n-th
+  execution of a source line of the anchored functions, detected by a
+  ``sys.monitoring`` LINE callback).  Two ways to start it:
+  ``python -m vf.logx child JOB.json`` (one interpreter per crash point, used
+  under strace) and ``python -m vf.logx serve BATCH.json`` (a launcher started
+  with ``subprocess.run(timeout=)`` that imports ioflo once and ``os.fork``s one
+  victim process per crash point, each with its own pipe and watchdog; a
+  forked victim has built no ioflo object before the fork, and dies by
+  ``os._exit`` exactly like a separate interpreter, which is what makes
+  thousands of crash points affordable).
 
 Nothing in here decides a property; the oracles live in the checks.
 """
@@ -225,6 +232,13 @@ def _line_targets():
 def child_main(jobfile):
     with open(jobfile) as f:
         job = json.load(f)
+    child_run(job)
+
+
+def child_run(job):
+    """Run one workload in *this* process and never return: the process ends
+    with os._exit (137 at the crash point, 0 after a normal end, 3 on an
+    exception), so nothing buffered in user space is written out."""
     spec, prefix, kill = job["spec"], job["prefix"], job.get("kill")
     census = job.get("census", False)
     quiet()
@@ -319,16 +333,12 @@ def child_main(jobfile):
 def run_child(job, workdir, tag, timeout=60, strace_out=None):
     """Run the crash child in its own interpreter.  Returns (rc, report, stderr)
     where report is the list of token lists it wrote; rc None on timeout."""
-    from vf.core import PY, VERIF, SCRATCH, child_env
+    from vf.core import PY, VERIF, child_env
     jf = os.path.join(workdir, "job-%s.json" % tag)
     with open(jf, "w") as f:
         json.dump(job, f)
-    # hundreds of interpreters per run: byte code is cached, but only inside this
-    # run's own scratch directory (deleted with it), so it is always compiled
-    # from the tree under test by this run and never reused by another run
-    env = child_env({"PYTHONPYCACHEPREFIX": os.path.join(os.environ.get("VERIF_SCRATCH", SCRATCH), "pyc")})
-    env.pop("PYTHONDONTWRITEBYTECODE", None)
-    cmd = [PY, "-S", "-m", "vf.logx", "child", jf]     # -S: ioflo comes from PYTHONPATH only
+    env = child_env()
+    cmd = [PY, "-B", "-S", "-m", "vf.logx", "child", jf]     # -S: ioflo comes from PYTHONPATH only
     if strace_out:
         cmd = ["strace", "-f", "-s", "64", "-e", "trace=write,fsync,rename,openat,close",
                "-o", strace_out] + cmd
@@ -336,12 +346,98 @@ def run_child(job, workdir, tag, timeout=60, strace_out=None):
         p = subprocess.run(cmd, cwd=VERIF, env=env, capture_output=True, timeout=timeout)
     except subprocess.TimeoutExpired:
         return None, [], "timeout"
-    rep = [l[len(MARK):].split(" ") for l in p.stdout.decode("utf-8", "replace").split("\n")
-           if l.startswith(MARK)]
-    return p.returncode, rep, p.stderr.decode("utf-8", "replace")[-800:]
+    return p.returncode, parse_report(p.stdout.decode("utf-8", "replace")), p.stderr.decode("utf-8", "replace")[-800:]
+
+
+def parse_report(text):
+    return [l[len(MARK):].split(" ") for l in text.split("\n") if l.startswith(MARK)]
+
+
+def _fork_run(job, timeout):
+    """Fork a victim that runs ``job``; collect what it wrote to its pipe."""
+    import select
+    import signal
+    import time
+    r, w = os.pipe()
+    pid = os.fork()
+    if pid == 0:
+        try:
+            os.close(r)
+            os.dup2(w, 1)
+            os.close(w)
+            child_run(job)
+        finally:
+            os._exit(4)
+    os.close(w)
+    chunks, deadline, timed_out = [], time.monotonic() + timeout, False
+    while True:
+        left = deadline - time.monotonic()
+        if left <= 0:
+            timed_out = True
+            os.kill(pid, signal.SIGKILL)
+            break
+        ready, _, _ = select.select([r], [], [], min(left, 5.0))
+        if ready:
+            data = os.read(r, 65536)
+            if not data:
+                break
+            chunks.append(data)
+    os.close(r)
+    _, status = os.waitpid(pid, 0)
+    rc = None if timed_out else os.waitstatus_to_exitcode(status)
+    return rc, b"".join(chunks).decode("utf-8", "replace")
+
+
+def serve_main(batchfile):
+    """Launcher: for each scenario run its jobs (first process, optional
+    resuming process) in forked victims; snapshot the log directory between
+    the two so the parent can judge the state the first one left."""
+    import shutil
+    with open(batchfile) as f:
+        batch = json.load(f)
+    quiet()
+    from ioflo.base import housing, logging, globaling  # noqa: F401  (imported once, before any fork)
+    results = []
+    for sc in batch["scenarios"]:
+        runs = []
+        for j, job in enumerate(sc["jobs"]):
+            rc, out = _fork_run(job, batch.get("victim_timeout", 60))
+            runs.append({"rc": rc, "out": out})
+            if j == 0 and len(sc["jobs"]) > 1:
+                if rc not in (0, 137):
+                    break
+                shutil.copytree(job["prefix"], sc["snap"])
+        results.append({"tag": sc["tag"], "runs": runs})
+    with open(batch["out"] + ".tmp", "w") as f:
+        json.dump(results, f)
+    os.replace(batch["out"] + ".tmp", batch["out"])
+    os._exit(0)
+
+
+def run_batch(scenarios, workdir, tag, timeout=300):
+    """scenarios: [{'tag', 'jobs': [job, (resume job)], 'snap': dir or None}].
+    Returns {tag: [(rc, report), ...]} or (None, reason)."""
+    from vf.core import PY, VERIF, child_env
+    bf = os.path.join(workdir, "batch-%s.json" % tag)
+    of = os.path.join(workdir, "batch-%s.out.json" % tag)
+    with open(bf, "w") as f:
+        json.dump({"scenarios": [{"tag": s["tag"], "jobs": s["jobs"], "snap": s.get("snap")} for s in scenarios],
+                   "out": of, "victim_timeout": 60}, f)
+    try:
+        p = subprocess.run([PY, "-B", "-S", "-m", "vf.logx", "serve", bf], cwd=VERIF, env=child_env(),
+                           capture_output=True, timeout=timeout)
+    except subprocess.TimeoutExpired:
+        return None, "launcher timeout"
+    if p.returncode != 0 or not os.path.exists(of):
+        return None, "launcher rc=%s: %s" % (p.returncode, p.stderr.decode("utf-8", "replace")[-400:])
+    with open(of) as f:
+        res = json.load(f)
+    return {r["tag"]: [(x["rc"], parse_report(x["out"])) for x in r["runs"]] for r in res}, ""
 
 
 if __name__ == "__main__":
     if len(sys.argv) == 3 and sys.argv[1] == "child":
         child_main(sys.argv[2])
+    if len(sys.argv) == 3 and sys.argv[1] == "serve":
+        serve_main(sys.argv[2])
     sys.exit(2)
